@@ -63,7 +63,8 @@ def run_core_property(ctx, module, kinds, oracles, quick, thorough, rule, extra_
         "modelled_ops": modelled + (["rm_rxns (lists, with / without remove_orphans, unknown identifiers skipped: Core.removeRxns)"] if "rm_rxns" in stats.get("op_hist", {}) else []) + (["add_rxns (one new reaction, metabolites of the model, no rule: Core.addRxn)"] if "add_rxns" in stats.get("op_hist", {}) else [])
                         + (["add_model_mets (one metabolite: Core.addMet)"] if "add_model_mets" in stats.get("op_hist", {}) else [])
                         + (["rm_mets (one metabolite, destructive or not: Core.rmMet / Core.rmMetD)"] if "rm_mets" in stats.get("op_hist", {}) else [])
-                        + (["imul (reaction *= k, k != 0: Core.imul)"] if "imul" in stats.get("op_hist", {}) else []),
+                        + (["imul (reaction *= k, k != 0: Core.imul)"] if "imul" in stats.get("op_hist", {}) else [])
+                        + (["slim_optimize / reaction.copy() / a + b (Core.observe: nothing changes)"] if any(k in stats.get("op_hist", {}) for k in ("slim_optimize", "rcopy", "radd")) else []),
         "oracle_only_ops": sorted(k for k in stats.get("op_hist", {}) if k not in coreops.MODELLED),
     })
     ctx.assumptions += [
